@@ -29,7 +29,7 @@ from labtech.types import ResultMeta, Storage, TaskResult
 import lv_universe as U
 import sched_h as S
 from common import coq_failing, rng_for, CoqError, g_list, g_nats, g_bool, g_pair, g_val, g_opt, subdir
-from common import storage_of
+from common import storage_of, PY
 
 logging.getLogger('labtech').setLevel(logging.CRITICAL)
 
@@ -424,7 +424,54 @@ def stage_zero_duration(report):
         shutil.rmtree(d, ignore_errors=True)
 
 
+def stage_second_interpreter(report, tier):
+    """C06 across interpreters: a family of multi-parameter tasks (tuple and dict parameters, two cache formats) is run in one
+    fresh interpreter, then again in another one with a different hash seed and another backend, on the same storage: the
+    second run must find every task cached, execute nothing, return equal values and the originally recorded result_meta."""
+    import subprocess
+    here = os.path.dirname(os.path.abspath(__file__))
+    combos = [('serial', 'fork', 1, 4242), ('fork', 'serial', 7, 2)] + ([('spawn', 'fork', 3, 11), ('fork', 'spawn', 5, 6)] if tier == 'thorough' else [])
+    for first, second, hs1, hs2 in combos:
+        d = tempfile.mkdtemp(dir=subdir('second'))
+        try:
+            outs = []
+            for k, (backend, hs) in enumerate(((first, hs1), (second, hs2))):
+                rec = os.path.join(d, f'rec{k}')
+                os.makedirs(rec)
+                cfg = dict(storage=os.path.join(d, 'store'), backend=backend, n=7, recdir=rec, result_file=os.path.join(d, f'res{k}.json'))
+                env = dict(os.environ, PYTHONHASHSEED=str(hs), PYTHONPATH=os.environ.get('LV_REPO', '/repo') + ':' + here)
+                env.pop('LV_EPOCH', None)
+                p = subprocess.run([PY, os.path.join(here, 'l3_second_run.py'), json.dumps(cfg)], env=env, stdout=subprocess.PIPE,
+                                   stderr=subprocess.PIPE, stdin=subprocess.DEVNULL, text=True, timeout=300)
+                if p.returncode != 0 or not os.path.exists(cfg['result_file']):
+                    report.violation('C06:second-run-raised', f'run {k + 1} ({backend}, PYTHONHASHSEED={hs}) of the same tasks on one storage failed: '
+                                                              f'{p.stderr[-300:]}', dict(level='second-interpreter', first=first, second=second))
+                    outs = None
+                    break
+                outs.append(json.load(open(cfg['result_file'])))
+            if outs is None:
+                continue
+            a, b = outs
+            what = dict(level='second-interpreter', first=first, second=second, hashseeds=[hs1, hs2])
+            if a['keys'] != b['keys']:
+                report.violation('C06:key-differs-across-interpreters', f'the same tasks have other cache keys in a fresh interpreter with PYTHONHASHSEED={hs2}', what)
+            elif sorted(b['cached_before']) != list(range(7)):
+                report.violation('C06:not-cached-in-new-process', f"after a complete first run only tasks {b['cached_before']} are reported cached in a new process", what)
+            elif b['executed']:
+                report.violation('C06:cached-but-executed', f"the second run (new process, {second}) executed tasks {b['executed']} again", what)
+            elif a['values'] != b['values']:
+                report.violation('C06:loaded-value-differs', 'the second run (new process) returned other values than the first', what)
+            elif a['metas'] != b['metas']:
+                report.violation('C06:result-meta-differs', 'the second run (new process) set another result_meta than the first run recorded', what)
+        finally:
+            shutil.rmtree(d, ignore_errors=True)
+
+
 def run_histories(prop, report, tier, seed, replay=None):
+    if prop == 'C06' and (replay is None or replay['input'].get('level') == 'second-interpreter'):
+        stage_second_interpreter(report, tier)
+        if replay is not None:
+            return
     if prop == 'C06' and (replay is None or replay['input'].get('level') == 'zero-duration'):
         stage_zero_duration(report)
         if replay is not None:
